@@ -36,8 +36,9 @@ Definition sample_calls (a b alpha : Qc) (K n : nat) (L : Qc) (z : bool) : list 
 (* the numeric arguments of a call as plain rationals (for comparisons by computation) *)
 Definition call_q (c : call) : list Q :=
   match c with Beta a b => [this a; this b] | Bern p => [this p] | Gamma s sc => [this s; this sc] end.
-(* the returned value when the gamma draw is g *)
-Definition sample_value (K : nat) (g : Qc) : Qc := match K with O => g | _ => floored g end.
+(* the returned value when the gamma draw is g: the floor is applied after either branch
+   (since /repo 322b9c9; before it the K = 0 branch returned g unfloored - the property does not depend on it) *)
+Definition sample_value (K : nat) (g : Qc) : Qc := floored g.
 
 (* run.update_concentration_value: node sizes of every key of node_data except the outlier key *)
 Definition K_n_of_tree (F : forest) : nat * nat :=
